@@ -15,7 +15,7 @@ LEVEL = "fault_enumeration"
 RULE = ("(A) fault sweep: for every operation kind x class x {unbuffered, inside obj.buffered, inside "
         "buffer_backend()} thread A runs the operation while a fault is injected - OSError(EIO) at the j-th "
         "file-system event of the operation for every j (audit hook), EFBIG after a byte prefix of the write "
-        "(RLIMIT_FSIZE), an unparsable or wrong-kind file, a value rejected before the lock is taken, a value "
+        "(RLIMIT_FSIZE), MemoryError at the same points, an unparsable (also: too deeply nested -> RecursionError) or wrong-kind file, a value rejected before the lock is taken, a value "
         "rejected inside the locked merge, a value only the encoder rejects (10**5000). After A has finished, "
         "the cooperative lock shims are inspected (a lock still owned by A = leak) and thread B performs "
         "operations on the same file through another object, on another file and on another class; B being "
@@ -140,11 +140,15 @@ def fault_case(world, mode, op, path, args, fault, out, sig):
     elif kind == "wrong_kind":
         world.p.outside_write([1, 2] if info.kind == "dict" else {"a": 1}, bump=True)
         fired["v"] = True
+    elif kind == "deep_nesting":
+        # an unparsable file of another kind: the decoder gives up with RecursionError
+        world.p.outside_write(None, raw=b"[" * 200000 + b"]" * 200000, bump=True)
+        fired["v"] = True
 
     def A():
         try:
-            if kind == "eio":
-                icpt = inject.FaultAtEvent(fault[1])
+            if kind in ("eio", "memoryerror"):
+                icpt = inject.FaultAtEvent(fault[1], exc=MemoryError if kind == "memoryerror" else None)
                 try:
                     a_result["ret"] = inject.with_interceptor(world.scratch, icpt, in_mode)
                 finally:
@@ -185,7 +189,7 @@ def fault_case(world, mode, op, path, args, fault, out, sig):
         sched.reset_all_locks()
         return fired["v"]
     # ---- thread B: operations on the same file (other object), another file, another class
-    if kind in ("unparsable", "wrong_kind"):
+    if kind in ("unparsable", "wrong_kind", "deep_nesting"):
         world.p.outside_write(copy.deepcopy(world.init), bump=True)
     b_log = []
 
@@ -247,7 +251,8 @@ def part_a(spec, out):
     keys = []
     try:
         for op, path, args in ops:
-            faults = [("unparsable",), ("wrong_kind",), ("encoder_only",), ("rejected_own",), ("rejected_in_update",)]
+            faults = [("unparsable",), ("wrong_kind",), ("deep_nesting",), ("encoder_only",), ("rejected_own",),
+                      ("rejected_in_update",)]
             # number of fs events of the fault-free op
             world.fresh()
             cnt = inject.CountEvents()
@@ -268,6 +273,7 @@ def part_a(spec, out):
                 pass
             n_ev = len(cnt.events)
             faults += [("eio", j) for j in range(1, n_ev + 1)]
+            faults += [("memoryerror", j) for j in range(1, n_ev + 1)]
             blob = len(json.dumps(world.init)) + 10
             faults += [("efbig", n) for n in ((0, 5, blob // 2) if spec["tier"] == "quick" else range(0, blob, 4))]
             for fault in faults:
